@@ -1,5 +1,10 @@
-"""C09 part (b): FMG start-up (nested iteration) -- filled in with the cycle model."""
+"""C09 part (b): FMG start-up = nested iteration from the coarsest level."""
+import cycle_common as Y
 
 
 def run(res, tier, seed):
-    res.assumptions.append('part (b) (nested-iteration start-up) is not yet covered by this revision of the check')
+    Y.base(res)
+    out = Y.run_trace(res, tier, seed)
+    if out:
+        impl, dis = out
+        Y.report(res, dis, impl, seed, tier, only_fmg=True, prop_filter=('fmg-two-level-start',))
